@@ -19,10 +19,15 @@ for d in sorted(glob.glob(os.path.join(HERE, "seeded", "S*"))):
         det.append({"check": prop, "violation_lines": len(viol), "inconclusive_lines": inconc, "harnesses": harn,
                     "verdict": "VIOLATION (exit 1)" if viol else ("inconclusive (exit 2)" if inconc else "not detected (exit 0)"),
                     "summary": summ.group(0)[:160] if summ else ""})
+    if "first_run" not in meta:
+        # the result of the checks as they were when the change was first tried (before any strengthening)
+        meta["first_run"] = det
     meta["detected_by"] = det
     meta["ran"] = "tools/run_seed.sh: git -C /repo apply patch.diff; ./check <prop> --tier quick; git -C /repo checkout -- ."
     json.dump(meta, open(mp, "w"), indent=1)
-    v = "; ".join("%s: %s%s" % (x["check"], x["verdict"], (" via " + ", ".join(x["harnesses"][:3])) if x["harnesses"] else "") for x in det) or "(not run yet)"
-    rows.append("| %s | %s | %s | %s |" % (sid, meta["breaks_property"], meta["needs_to_manifest"][:150], v))
-print("| seed | property | needs | result of the quick checks |\n|---|---|---|---|")
+    fmt = lambda dd: "; ".join("%s: %s%s" % (x["check"], x["verdict"].split(" (")[0], (" via " + ", ".join(x["harnesses"][:3])) if x["harnesses"] else "") for x in dd) or "(not run yet)"
+    v = fmt(det)
+    f = fmt(meta["first_run"])
+    rows.append("| %s | %s | %s | %s | %s |" % (sid, meta["breaks_property"], meta["needs_to_manifest"][:150], f if f != v else "=", v))
+print("| seed | property | needs | first run | final checks |\n|---|---|---|---|---|")
 print("\n".join(rows))
